@@ -159,7 +159,8 @@ def transient_fault_family(rep, b):
         if not m:
             continue
         name, rest = m.group(2), m.group(3)
-        counts[name] = counts.get(name, 0) + 1
+        counts[name] = counts.get((m.group(1), name), 0) + 1          # strace counts `when=` per traced process: so do we (the caller is a forked child)
+        counts[(m.group(1), name)] = counts[name]
         if name == "write" and "XDRV-ENTER" in rest:
             inwin = not plans and not fdstat and counts.get("_entered", 0) == 0
             counts["_entered"] = counts.get("_entered", 0) + 1
